@@ -855,4 +855,93 @@ def serve (I : Impl) (cfg : Cfg) (packAsBytes : Bool) (ep : EP) (lr : LReq) : Op
 def listen (I : Impl) (cfg : Cfg) (packAsBytes : Bool) (ep : EP) (lr : LReq) : Option (Option Outcome) :=
   if reachesChain cfg.limits ep lr then some (serve I cfg packAsBytes ep lr) else none
 
+/-! ## A trusted proxy in front of the HTTP decision service (`serve.decision.trusted_proxies`)
+
+The HTTP decision service is made for gateways that *delegate* the decision (Traefik `forwardAuth`, NGINX
+`auth_request`, …): the gateway sends a request of its own to the service and describes the request of the client — the
+logical request — in `X-Forwarded-Method`, `X-Forwarded-Proto`, `X-Forwarded-Host` and `X-Forwarded-Uri`. The
+`trustedproxy` middleware keeps these headers if the peer is one of the configured trusted proxies (and hands the
+request on exactly as it came), `extractMethod` / `extractURL` of `requestcontext` then read the view from them. -/
+
+/-- `http.Header.Get`: the first value stored under the (canonical) key, "" if there is none -/
+def headerGet (h : List (Bytes × List Bytes)) (key : Bytes) : Bytes := ((lookup key h).getD []).head?.getD []
+
+/-- a request target in origin form (`/…`, but not `//…`, which `url.Parse` reads as an authority): the domain on
+    which `goParseRef` models `url.Parse` -/
+def originForm (s : Bytes) : Bool := s.head? = some '/' && !(b!"//".isPrefixOf s)
+
+/-- `url.Parse(ref)` for a reference in origin form: the fragment is cut off at the first `#`, the rest is parsed like
+    a request target (`parse(…, viaRequest = false)` differs from `ParseRequestURI` in the treatment of a leading `//` and
+    of references without a leading slash only: outside `originForm`) -/
+def goParseRef (s : Bytes) : Option GoURL := goParseTarget (cut '#' s).1
+
+/-- the `trustedproxy` middleware: headers of a peer that is no trusted proxy are removed, the request of a trusted
+    one is handed on as it came -/
+def trustedProxyMiddleware (trusted : Bool) (r : HttpReq) : HttpReq :=
+  if trusted then r else { r with header := stripUntrusted r.header }
+
+/-- `extractMethod` + `extractURL` on the request the middleware chain hands on: every `X-Forwarded-*` header that is
+    present and not empty replaces the corresponding part of the carrier; the path of `X-Forwarded-Uri` is taken in
+    the received spelling (`escapedPath`), its query as written; an empty raw path / query falls back to the carrier's -/
+def httpObjFwd (r : HttpReq) : ReqObj :=
+  let m := headerGet r.header b!"X-Forwarded-Method"
+  let proto := headerGet r.header b!"X-Forwarded-Proto"
+  let host := headerGet r.header b!"X-Forwarded-Host"
+  let uri := headerGet r.header b!"X-Forwarded-Uri"
+  let fwd : Bytes × Bytes :=
+    if uri.isEmpty then ([], []) else
+    match goParseRef uri with
+    | some u => (httpEscapedPath u, u.rawQuery)
+    | none => ([], [])
+  let rawPath := if fwd.1.isEmpty then httpEscapedPath r.url else fwd.1
+  { method := if m.isEmpty then r.method else m,
+    url := { scheme := if proto.isEmpty then (if r.tls then b!"https" else b!"http") else proto,
+             host := if host.isEmpty then r.host else host,
+             path := unescapeOrEmpty rawPath, rawPath,
+             rawQuery := if fwd.2.isEmpty then r.url.rawQuery else fwd.2 },
+    captures := none }
+
+/-- the view functions of the HTTP request context over the header map `h` the middleware chain hands on -/
+def httpFuncsOn (D : Decoder) (r : HttpReq) (h : List (Bytes × List Bytes)) : Funcs :=
+  { header := httpHeader r h,
+    cookie := stdCookie ((lookup b!"Cookie" h).getD []),
+    body := match r.body with
+      | none => .raw []
+      | some b => decodeBody D (httpHeader r h b!"Content-Type") b }
+
+/-- How a gateway delegates the decision: the request it sends to the decision service has a method (`none`: the
+    method of the client's request), a request target of its own (`/decide`, …) and travels over a transport of its own
+    (TLS or not); the `Host` line, the other header lines and the body of the client's request are passed on. -/
+structure Gateway where
+  method : Option Bytes
+  tls    : Bool
+  path   : Bytes
+deriving Repr
+
+def fwdMethod : Bytes := b!"X-Forwarded-Method"
+def fwdProto : Bytes := b!"X-Forwarded-Proto"
+def fwdHost : Bytes := b!"X-Forwarded-Host"
+def fwdUri : Bytes := b!"X-Forwarded-Uri"
+
+/-- the HTTP message the gateway sends to the decision service for the logical request `lr` -/
+def forwardAuth (g : Gateway) (lr : LReq) : LReq :=
+  { method := g.method.getD lr.method, tls := g.tls, host := lr.host, rawPath := g.path, query := [],
+    headers := (fwdMethod, lr.method) :: (fwdProto, lr.scheme) :: (fwdHost, lr.host) :: (fwdUri, lr.target) ::
+      lr.headers,
+    body := lr.body }
+
+/-- the request context of the decision service for the message of a trusted gateway -/
+def mkCtxFwd (D : Decoder) (level : LogLevel) (g : Gateway) (lr : LReq) : Option Entry :=
+  (toHTTP (forwardAuth g lr)).map fun r0 =>
+    let r := dumpMiddleware level (trustedProxyMiddleware true r0)
+    { ctx := { caches := true, fresh := httpObjFwd r }, funcs := httpFuncsOn D r r.header,
+      headersMap := (hostKey, r.host) :: r.header.map fun kv => (canonKey kv.1, join comma kv.2),
+      client := r.header.map fun kv => (canonKey kv.1, join comma kv.2),
+      payload := r.body.getD [] }
+
+/-- one logical request delegated to the decision service by a trusted gateway -/
+def serveFwd (cfg : Cfg) (g : Gateway) (lr : LReq) : Option Outcome :=
+  (mkCtxFwd cfg.D cfg.logLevel g lr).map fun e =>
+    finalize cfg.respond e.client e.payload .decision (execute cfg e.funcs e.ctx)
+
 end Heimdall.EntryView
